@@ -1129,6 +1129,12 @@ class Merge3Merger:
                 this_path = _mod_tree.find_previous_path(
                     self.other_tree, self.this_tree, other_path
                 )
+                if not all_inventory_trees and this_path != other_path:
+                    # New in OTHER and no file ids: there is no common
+                    # ancestor to follow, so THIS has this entry only if it
+                    # has the very same path. (A different path here is
+                    # just an unrelated file of THIS with similar content.)
+                    this_path = None
             paths3 = change.path + (this_path,)
 
             if all_inventory_trees:
